@@ -75,7 +75,19 @@ mutants|seeded)
       fi
       if [ $rc -eq $want ]; then
         line="$(grep -m1 -A2 '^VIOLATION' "$sc/out/$p.log" | tr '\n' ' ' | cut -c1-300)"
-        echo "ok   $n [$prop expect=$expect] check $p exit=$rc ($((t1-t0))s) $line"
+        rep=""
+        if [ $want -eq 1 ]; then
+          # every reported replay file must reproduce its violation in a fresh process
+          nrep=0; nok=0
+          for rf in $(grep '^VIOLATION' "$sc/out/$p.log" | sed 's/.*replay=//'); do
+            nrep=$((nrep+1))
+            ESPADA_REPO="$sc/repo" ESPADA_SIM_TARGET="$sc/target" VERIF_OUT="$sc/out" "$HERE/check" replay "$rf" >"$sc/out/replay.log" 2>&1
+            if [ $? -eq 1 ] && grep -q "reproduced key=\|VIOLATION property=C15 replay=.*send_sync" "$sc/out/replay.log"; then nok=$((nok+1)); else echo "  REPLAY DID NOT REPRODUCE: $rf"; head -3 "$sc/out/replay.log"; fi
+          done
+          rep="replays $nok/$nrep reproduced"
+          [ $nok -ne $nrep ] && fail=1
+        fi
+        echo "ok   $n [$prop expect=$expect] check $p exit=$rc ($((t1-t0))s) $rep $line"
       else
         echo "FAIL $n [$prop expect=$expect] check $p exit=$rc (wanted $want)"; tail -6 "$sc/out/$p.log"; fail=1
       fi
